@@ -203,6 +203,46 @@ def r_forward(F, V):
 
 # --------------------------------------------------------------------- R-CLONE-FIELDS
 
+def _reaches_self_field(body, ct, F, X, fname):
+    """does field `fname` of the X built by the constructor call ct derive (only) from self.fname? None if the constructor's
+    struct literal cannot be found"""
+    cb = F.bodies.get(callee_path(ct))
+    if cb is None:
+        return None
+    res = None
+    for i, k, st in cb.stmts():
+        if st["k"] == "assign" and st["rv"]["k"] == "aggregate" and st["rv"].get("adt") == X and fname in (st["rv"].get("fields") or []):
+            op = st["rv"]["ops"][st["rv"]["fields"].index(fname)]
+            if op["k"] == "const":
+                return True
+            S2 = sources(cb, op)
+            reach_args = set(S2.args)
+            frontier = [t2 for lst in S2.calls.values() for _, t2 in lst]
+            for _ in range(3):
+                nxt = []
+                for t2 in frontier:
+                    for a2 in t2["args"]:
+                        Sx = sources(cb, a2)
+                        reach_args |= Sx.args
+                        nxt.extend(t3 for lst in Sx.calls.values() for _, t3 in lst)
+                frontier = nxt
+            loads = set()
+            for a in reach_args:
+                if a - 1 < len(ct["args"]) and ct["args"][a - 1]["k"] in ("copy", "move"):
+                    Sa = sources(body, ct["args"][a - 1])
+                    loads |= set(nm for nm, adt in Sa.loads if adt == X)
+                    for cp2, lst in Sa.calls.items():
+                        for bb, t2 in lst:
+                            for a2 in t2["args"]:
+                                if a2["k"] in ("copy", "move"):
+                                    loads |= set(nm for nm, adt in sources(body, a2).loads if adt == X)
+                                    r, path = deep_root(body, a2["p"])
+                                    if r == 1:
+                                        loads |= set(x for x in path if any(fd["name"] == x for fd in F.adts[X]["variants"][0]["fields"]))
+            res = (loads == {fname}) if loads else (True if "PhantomData" in str(op) else False)
+    return res
+
+
 def r_clone_fields(F, V):
     R = Result("R-CLONE-FIELDS", F.cfg)
     iters = _iterator_impl_types(F)
@@ -228,6 +268,36 @@ def r_clone_fields(F, V):
             body = F.bodies.get(it["path"])
             if body is None:
                 continue
+            if not any(s["k"] == "assign" and s["rv"]["k"] == "aggregate" and s["rv"].get("adt") == X for i, k, s in body.stmts()):
+                # no struct literal: the clone is the result of a constructor call (`Self::new(..)`). Look into the constructor field
+                # by field: what it puts into field f must still come from self.f (a constructor that re-derives a field from
+                # another one - e.g. reloads the current group from the control pointer - forgets how far self had got)
+                a_ = F.adts.get(X)
+                for ci, ct in body.calls():
+                    dty = body.locals[ct["dest"]["l"]]["ty"]
+                    if not (dty.get("k") == "adt" and dty.get("path") == X and callee_path(ct) in F.bodies and a_):
+                        continue
+                    n += 1
+                    bad = []
+                    for fi, fd in enumerate(a_["variants"][0]["fields"]):
+                        fake = {"k": "copy", "p": {"l": ct["dest"]["l"], "proj": [{"k": "field", "i": fi, "name": fd["name"], "adt": X}]}}
+                        S = sources(body, fake)
+                        if callee_path(ct) not in S.via:
+                            bad = None
+                            break
+                        srcs = set(nm for nm, adt in S.loads if adt == X) - ({fd["name"]} if False else set())
+                        # the fake load itself registers (fname, X): only loads of *other* fields, or none of self.f, are a finding
+                        own = _reaches_self_field(body, ct, F, X, fd["name"])
+                        if own is False:
+                            bad.append((fd["name"], sorted(x for x in srcs if x != fd["name"]) or ["<not taken from self>"]))
+                    key = "%s|clone" % X
+                    if bad is None:
+                        continue
+                    if bad:
+                        R.violation(key, body, "Clone for the iterator type %s goes through %s, which builds field %s: a cloned iterator would not continue from the same position" % (X, callee_path(ct), "; ".join("`%s` from %s" % (f, "/".join(s_)) for f, s_ in bad)), line=line_of(body, bb=ci))
+                        R.inst(key, "field re-derived in Clone", "violation", True, where(body, bb=ci))
+                    else:
+                        R.inst(key, "Clone through %s: every field comes from the same field of self" % callee_path(ct), "ok", True, where(body, bb=ci))
             for i, k, s in body.stmts():
                 if s["k"] == "assign" and s["rv"]["k"] == "aggregate" and s["rv"].get("adt") == X:
                     n += 1
@@ -464,14 +534,227 @@ def _closure_reaches(F, clos, suffixes, depth=0):
     return False
 
 
+def _manymut_generic(F, V, R, CHK, PTRS, UNCHK):
+    """shape-independent obligations of the checked multi-key lookup (see r_manymut). Decided: a duplicate panic exists and is
+    controlled by a comparison of entry identities; nothing else panics; no reference is created before that decision; the
+    comparison is not gated by / does not include the hashes; the references come from the lookups that were compared.
+    NOT decided here: that an iterator-based check compares *all* pairs (which elements an adaptor chain visits is a
+    question about run-time values)."""
+    from rules.fallible import PANIC_FNS_PREFIX, PANIC_METHODS, _in_debug_assert
+    scope = [CHK]
+    for q in sorted(F.reachable_fns(CHK)):
+        if q != CHK and (q.startswith(CHK + "::{closure") or (q.startswith("raw::RawTable::get_many") and q != UNCHK) or any(q.startswith(x + "::{closure") for x in scope)):
+            scope.append(q)
+    for q in sorted(F.reachable_fns(CHK)):
+        if q not in scope and any(q.startswith(x + "::{closure") for x in scope):
+            scope.append(q)
+    # closures of helpers that were inlined into get_many_mut keep the helper's path: every closure constructed in a scope body
+    changed = True
+    while changed:
+        changed = False
+        for q in list(scope):
+            for i, k, st in F.bodies[q].stmts():
+                if st["k"] == "assign" and st["rv"]["k"] == "aggregate" and st["rv"].get("kind") == "closure" and st["rv"].get("closure") in F.bodies and st["rv"]["closure"] not in scope:
+                    scope.append(st["rv"]["closure"])
+                    changed = True
+    body = F.bodies[CHK]
+    key = CHK + "|duplicate-check"
+
+    def is_cmp(t):
+        cp = callee_path(t) or ""
+        decl = t["f"].get("path", "") if t["f"]["k"] == "fn" else ""
+        return cp.endswith("[T]::contains") or decl.endswith("PartialEq::eq") or decl.endswith("PartialEq::ne")
+    cmps = [(q, i, t) for q in scope for i, t in F.bodies[q].calls() if is_cmp(t)]
+    for q in scope:
+        for i, k, st in F.bodies[q].stmts():
+            if st["k"] == "assign" and st["rv"]["k"] == "binop" and st["rv"]["op"] in ("Eq", "Ne"):
+                tys = [F.bodies[q].locals[o["p"]["l"]]["ty"]["s"] if o["k"] in ("copy", "move") and not o["p"].get("proj") else "" for o in (st["rv"]["a"], st["rv"]["b"])]
+                if any(("*" in x or "NonNull" in x or x == "usize") for x in tys):
+                    cmps.append((q, i, None))
+    finds = [(q, i) for q in scope for i, t in F.bodies[q].calls() if (callee_path(t) or "").endswith("RawTable::find")]
+    convs = [(q, i) for q in scope for i, t in F.bodies[q].calls() if (callee_path(t) or "").endswith("Bucket::as_mut") or (callee_path(t) or "").endswith("NonNull::as_mut")]
+    if not finds or not convs:
+        R.undec("get_many_mut: lookups (%d) / conversions to &mut (%d) not recognised" % (len(finds), len(convs)))
+        return R
+    problems = []
+    if not cmps:
+        problems.append("no comparison of entry identities (pointers / bucket indices) is made before the references are handed out: two requests resolving to the same entry yield aliasing `&mut`")
+    # panic sites of the scope
+    panics = []
+    for q in scope:
+        qb = F.bodies[q]
+        for i in qb.normal:
+            t = qb.term(i)
+            if t["k"] == "call" and ((callee_path(t) or "").startswith(PANIC_FNS_PREFIX) or (callee_path(t) or "") in PANIC_METHODS) \
+                    and not (_in_debug_assert(t.get("sp")) or _in_debug_assert(t.get("sp_full"))):
+                panics.append((q, i))
+    cmp_fns = set(q for q, _, _ in cmps)
+
+    def tied(q, i):
+        """is the panic at (q, i) control dependent on a comparison of identities (made here, or inside a closure handed to an
+        iterator adaptor whose result is tested here)?"""
+        qb = F.bodies[q]
+        for (bb, s_, S) in controlling_sources(qb, i):
+            for c, lst in S.calls.items():
+                for blk, t2 in lst:
+                    if is_cmp(t2):
+                        return True
+                    for cal in V.site_callees(qb, t2):
+                        if cal in cmp_fns or any(x in cmp_fns for x in F.reachable_fns(cal) if x in scope):
+                            return True
+            if any(cq == q and ct is None and ci == bb_ for (cq, ci, ct) in cmps for bb_ in [bb]):
+                return True
+            dd = qb.single_def(qb.term(bb)["discr"]["p"]["l"]) if qb.term(bb)["k"] == "switch" and qb.term(bb)["discr"]["k"] in ("copy", "move") and not qb.term(bb)["discr"]["p"].get("proj") else None
+            if dd and dd[0] == "stmt" and dd[3]["rv"]["k"] == "binop" and dd[3]["rv"]["op"] in ("Eq", "Ne") and any(cq == q and ct is None for (cq, ci, ct) in cmps):
+                return True
+        return False
+    dup = [(q, i) for (q, i) in panics if tied(q, i)]
+    extra = [(q, i) for (q, i) in panics if not tied(q, i)]
+    if cmps and not dup:
+        problems.append("no panic is control dependent on the comparison of entry identities: duplicates are detected but the call goes on to hand out aliasing `&mut`")
+    for (q, i) in extra:
+        R.violation("%s|extra-panic" % q, F.bodies[q], "an explicit panic site that is not controlled by the comparison of entry identities is reachable from the multi-key lookup: the call panics for requests that do not resolve "
+                    "to the same entry instead of returning None / distinct references", line=line_of(F.bodies[q], bb=i))
+    # order: in get_many_mut itself, everything that creates references comes after the point that decides the panic
+    top_conv = []
+    for j, t2 in body.calls():
+        cp = callee_path(t2) or ""
+        if cp.endswith("Bucket::as_mut") or cp.endswith("NonNull::as_mut"):
+            top_conv.append(j)
+        else:
+            for cal in V.site_callees(body, t2):
+                if cal in scope and cal != CHK and any(x == cal or x in F.reachable_fns(cal) for x, _ in convs) and not any(x == cal or x in F.reachable_fns(cal) for x, _ in dup):
+                    top_conv.append(j)
+    deciders = []
+    for (q, i) in dup:
+        if q == CHK:
+            for (bb, s_) in body.control_deps_trans(i, "all"):
+                deciders.append(bb)
+        else:
+            for j, t2 in body.calls():
+                if q in V.site_callees(body, t2) or any(q == x or q in F.reachable_fns(x) for x in V.site_callees(body, t2)):
+                    deciders.append(j)
+    loops = body.natural_loops()
+    for c in top_conv:
+        ok = False
+        for dblk in deciders:
+            heads = [h for h, blocks in loops if dblk in blocks]
+            cands = [dblk] + heads
+            if any(body.dominates(x, c) and c not in [b2 for h, blocks in loops if h == x for b2 in blocks if x != dblk] for x in cands):
+                ok = True
+        if dup and not ok:
+            problems.append("references are created on a path that has not passed the duplicate check")
+    # the comparison is about the entries, not about the hashes
+    for (q, i, t) in cmps:
+        qb = F.bodies[q]
+        for (bb, s_, S) in controlling_sources(qb, i):
+            dd = qb.single_def(qb.term(bb)["discr"]["p"]["l"]) if qb.term(bb)["k"] == "switch" and qb.term(bb)["discr"]["k"] in ("copy", "move") and not qb.term(bb)["discr"]["p"].get("proj") else None
+            if dd and dd[0] == "stmt" and dd[3]["rv"]["k"] == "binop" and dd[3]["rv"]["op"] in ("Eq", "Ne"):
+                tys = [qb.locals[o["p"]["l"]]["ty"]["s"] if o["k"] in ("copy", "move") else o.get("t", "") for o in (dd[3]["rv"]["a"], dd[3]["rv"]["b"])]
+                if "u64" in tys:
+                    problems.append("the identity comparison is only made when two hashes are equal: the same entry reached through two different hashes (colliding tags, a Hash that is not a function of the key) is handed out twice")
+        if t is not None:
+            # element type with a derived / hand-written PartialEq of the crate: it must not compare a hash
+            cal = callee_path(t) or ""
+            eqs = [cal] if cal in F.bodies else []
+            for a in t["args"]:
+                if a["k"] in ("copy", "move"):
+                    ty = qb.locals[a["p"]["l"]]["ty"]
+                    for _ in range(3):
+                        if ty.get("k") in ("ref", "slice", "array", "rawptr") and isinstance(ty.get("inner") or ty.get("elem"), dict):
+                            ty = ty.get("inner") or ty.get("elem")
+                    if ty.get("k") == "adt" and ty.get("path") in F.adts:
+                        for im in F.impls:
+                            if im.get("trait") == "core::cmp::PartialEq" and im["self_ty"].get("k") == "adt" and im["self_ty"]["path"] == ty["path"]:
+                                eqs += [it["path"] for it in im["items"] if it["name"] == "eq" and it["path"] in F.bodies]
+            for e in eqs:
+                eb = F.bodies[e]
+                for i2, k2, s2 in eb.stmts():
+                    if s2["k"] == "assign" and s2["rv"]["k"] == "binop" and s2["rv"]["op"] in ("Eq", "Ne"):
+                        tys = [eb.locals[o["p"]["l"]]["ty"]["s"] if o["k"] in ("copy", "move") else o.get("t", "") for o in (s2["rv"]["a"], s2["rv"]["b"])]
+                        if "u64" in tys:
+                            problems.append("the values compared by the duplicate check are equal only if their hashes are equal too (%s compares a u64 field): the same entry reached through two different hashes is handed out twice" % e)
+    # one batch of lookups: the references come from the results that were compared
+    if len(set(finds)) > 1:
+        problems.append("the lookups are made more than once (%d find sites): the duplicate check looks at one batch of results while the references are created from another - an equality that answers differently the second time yields aliasing `&mut`" % len(set(finds)))
+    for q in scope:
+        for i, t in F.bodies[q].calls():
+            if callee_path(t) == UNCHK:
+                problems.append("the checked lookup finishes by calling the unchecked one, which looks every key up again: the references do not come from the results that were checked")
+    # identity value: not a Bucket accessor that is the same for all buckets of a zero-sized element type
+    for (fq, fi) in finds:
+        fb = F.bodies[fq]
+        for i, t in fb.calls():
+            cp = callee_path(t) or ""
+            if cp.startswith("raw::Bucket::") and cp.split("::")[-1] in ("as_ptr", "as_non_null") and _layout_constant_arm(F, cp, set()):
+                problems.append("the entry identity is taken from %s, which is the same pointer for every bucket when T is zero-sized: distinct entries compare equal and get_many_mut panics for them" % cp)
+    # positions counted after a filtering adaptor do not index the unfiltered array: `ptrs.iter().flatten().enumerate()` numbers
+    # the hits, `ptrs[..i]` counts the requests - every miss in front shortens the prefix that is compared
+    FILTERING = ("Flatten<", "Filter<", "FilterMap<", "SkipWhile<", "Skip<", "StepBy<", "TakeWhile<", "MapWhile<", "FlatMap<")
+    for q in scope:
+        qb = F.bodies[q]
+        for i, t in qb.calls():
+            f_ = t["f"]
+            if f_["k"] != "fn" or not (f_.get("trait") or f_.get("path", "")).startswith("core::iter::"):
+                continue
+            st_ = (f_.get("self_ty") or {}).get("s", "")
+            k_ = st_.find("Enumerate<")
+            if k_ < 0 or not any(st_[k_ + len("Enumerate<"):].lstrip().startswith(("core::iter::" + x, "core::iter::adapters::" + x, x)) or ("::" + x) in st_[k_:k_ + 80] for x in FILTERING):
+                continue
+            for cal in V.site_callees(qb, t):
+                cb2 = F.bodies.get(cal)
+                if cb2 is None or cb2.kind != "Closure" or cb2.arg_count < 2:
+                    continue
+                # the position component of the (usize, item) pair used as a range bound / index of a slice or array
+                for j, k2, s2 in cb2.stmts():
+                    if s2["k"] == "assign" and s2["rv"]["k"] == "aggregate" and (s2["rv"].get("adt") or "").startswith("core::ops::range::Range"):
+                        for o in s2["rv"]["ops"]:
+                            if o["k"] in ("copy", "move"):
+                                S_ = sources(cb2, o)
+                                if 2 in S_.args and not S_.calls:
+                                    problems.append("a position counted by enumerate() *after* a filtering adaptor (%s) is used as a bound into the unfiltered array: the prefix that is compared is too short whenever an earlier request missed, so a duplicate behind a missing key is not detected" % st_[k_:k_ + 60])
+    if problems:
+        R.violation(key, body, "; ".join(sorted(set(problems))))
+        R.inst(key, "; ".join(sorted(set(problems))), "violation", True, where(body))
+    else:
+        R.inst(key, "restructured duplicate check: a panic controlled by a comparison of entry identities precedes every conversion to &mut; no other panic; comparison independent of the hashes; one batch of lookups "
+               "(that an iterator-based check visits all pairs is not decided statically)", "ok", True, where(body))
+    # unchecked variants stay unreachable from safe code
+    for p2, b2 in F.bodies.items():
+        for i, t in b2.calls():
+            if callee_path(t) == UNCHK:
+                outer = p2
+                while "::{closure#" in outer:
+                    outer = outer.rsplit("::{closure#", 1)[0]
+                ob = F.bodies.get(outer)
+                if not (outer == CHK or (ob is not None and ob.unsafe)):
+                    R.violation("%s|calls-get_many_unchecked_mut" % p2, b2, "get_many_unchecked_mut (no aliasing check) is called from the safe function %s" % outer, line=line_of(b2, bb=i))
+    for root in ("map::HashMap::get_many_mut", "map::HashMap::get_many_key_value_mut", "table::HashTable::get_many_mut"):
+        if root in F.bodies and CHK not in F.reachable_fns(root):
+            R.violation(root + "|unchecked", F.bodies[root], "%s does not go through the checked RawTable::get_many_mut" % root)
+    R.info["mode"] = "generic (restructured duplicate check)"
+    return R
+
+
 def r_manymut(F, V):
     R = Result("R-MANYMUT", F.cfg)
     PTRS = "raw::RawTable::get_many_mut_pointers"
     UNCHK = "raw::RawTable::get_many_unchecked_mut"
     CHK = "raw::RawTable::get_many_mut"
-    if PTRS not in F.bodies or CHK not in F.bodies:
-        R.undec("get_many_mut / get_many_mut_pointers not found")
+    if CHK not in F.bodies:
+        R.undec("raw::RawTable::get_many_mut not found")
         return R
+    # the rule below is written against the shape of the pinned implementation (a pointer array from get_many_mut_pointers, an
+    # explicit pairwise loop). If the duplicate check has been restructured (iterator adaptors, a helper, bucket indices instead of
+    # pointers, the check fused into the lookup loop) the shape-independent obligations are decided instead
+    pristine_shape = False
+    if PTRS in F.bodies:
+        cb_ = F.bodies[CHK]
+        for i_, t_ in cb_.calls():
+            if callee_path(t_) == PTRS and _identity_check_loop(cb_, t_["dest"]["l"]) is not None:
+                pristine_shape = True
+    if not pristine_shape:
+        return _manymut_generic(F, V, R, CHK, PTRS, UNCHK)
     n = 0
     # (i) in every safe body that obtains the pointer array, conversion to &mut happens only after the pairwise identity check
     for p, body in F.bodies.items():
@@ -804,6 +1087,118 @@ WALKERS = ("raw::RawIterRange::next_impl", "raw::RawIterRange::fold_impl")
 CURSOR_FIELDS = ("current_group", "data", "next_ctrl")
 
 
+def _walker_local_mode(body):
+    """A walker that consumes `self` by value may keep the cursor in locals (`let mut group = self.current_group; let mut data =
+    self.data; let mut ctrl = self.next_ctrl..`) instead of updating the fields. Returns None if this body is not of that form,
+    else the list of problems (same obligations as for the field form)."""
+    if body.locals[1]["ty"].get("k") == "ref":
+        return None
+    # no store into a cursor field of self at all
+    for i, k, s in body.stmts():
+        if s["k"] == "assign":
+            lf = last_field(s["p"])
+            if lf and lf["name"] in CURSOR_FIELDS and body.root_of_place(s["p"])[0] == 1:
+                return None
+    carriers = {}
+    for f in CURSOR_FIELDS:
+        for l in range(body.arg_count + 1, len(body.locals)):
+            ds = body.whole_defs(l)
+            if len(ds) < 2:
+                continue
+            for d in ds:
+                op = None
+                if d[0] == "stmt" and d[3]["k"] == "assign":
+                    S = None
+                    rv = d[3]["rv"]
+                    if rv["k"] == "use":
+                        S = sources(body, rv["op"], transparent=_TP_MATCH, follow_phi=False)
+                elif d[0] == "call":
+                    S = Sources_of_call(body, d[3])
+                if S is not None and S.has_load(f) and 1 in S.args and not any("Group::load" in c for c in S.calls):
+                    carriers.setdefault(f, (l, d))
+    if set(carriers) != set(CURSOR_FIELDS):
+        return None
+    problems = []
+    lg, ld, lc = carriers["current_group"][0], carriers["data"][0], carriers["next_ctrl"][0]
+    loads = [(i, t) for i, t in body.calls() if "Group::load" in (callee_path(t) or "")]
+    bit_next = [(i, t) for i, t in body.calls() if (callee_path(t) or "").endswith("<BitMaskIter as Iterator>::next")]
+    if not bit_next:
+        problems.append("no BitMaskIter::next call: the walker does not iterate a bit mask")
+
+    def defs_of(l):
+        out = []
+        for d in body.whole_defs(l):
+            out.append((d[1], d))
+        return out
+    gdefs = defs_of(lg)
+    # the masks iterated are the carrier's values (the stored current_group first, reloads later)
+    for i, t in bit_next:
+        a0 = t["args"][0] if t["args"] else None
+        S = sources(body, a0, transparent=_TP_MATCH + ("core::iter::traits::collect::",)) if a0 else None
+        if S is None or not S.has_load("current_group"):
+            problems.append("bit indices are taken from a bit mask that does not start from `self.current_group`: elements of the current group that were already yielded are visited again (or skipped)")
+    for li, lt in loads:
+        ok = False
+        for (bi, d) in gdefs:
+            if d[0] == "call":
+                S = Sources_of_call(body, d[3])
+                if d[1] == li:
+                    ok = True
+            else:
+                S = sources(body, d[3]["rv"]["op"], transparent=_TP_MATCH) if d[3]["rv"]["k"] == "use" else None
+            if S and any(bb == li for lst in S.calls.values() for bb, _ in lst):
+                ok = True
+        if not ok:
+            problems.append("a freshly loaded group does not become the mask that is iterated next")
+    init = {f: carriers[f][1] for f in CURSOR_FIELDS}
+    adv = {f: [(bi, d) for (bi, d) in defs_of(carriers[f][0]) if d is not init[f]] for f in CURSOR_FIELDS}
+    for li, _ in loads:
+        for f in CURSOR_FIELDS:
+            if not adv[f]:
+                problems.append("the local copy of `%s` is never advanced" % f)
+                continue
+            avoid = tuple(sorted(set(bi for bi, _d in adv[f])))
+            reach = set()
+            for x in body.nsucc[li]:
+                reach |= body.reachable_from(x, avoid)
+            if li in avoid:
+                continue
+            if any(l2 in reach for l2, _ in loads):
+                problems.append("after a group has been loaded the walker can go on to the next load without advancing its copy of `%s`: the cursor parts no longer describe the same group" % f)
+    steps = {}
+    for f in ("data", "next_ctrl"):
+        for (bi, d) in adv[f]:
+            t = d[3] if d[0] == "call" else None
+            if t is None and d[3]["rv"]["k"] == "use" and d[3]["rv"]["op"]["k"] in ("copy", "move"):
+                dd = body.single_def(d[3]["rv"]["op"]["p"]["l"])
+                t = dd[3] if dd and dd[0] == "call" else None
+            if t is not None and len(t["args"]) > 1:
+                steps.setdefault(f, set()).add(expr_key(body, t["args"][1]))
+    if steps.get("data") and steps.get("next_ctrl") and steps["data"] != steps["next_ctrl"]:
+        problems.append("the copies of `data` and `next_ctrl` are advanced by different amounts (%s vs %s)" % (sorted(steps["data"]), sorted(steps["next_ctrl"])))
+    # the first group load happens after the control cursor has been advanced past the current group: the load address derives
+    # from the ctrl carrier, and a def of the carrier other than its initialisation dominates (or shares the block of) every load
+    return problems
+
+
+def Sources_of_call(body, t):
+    """sources of the value a call returns: the union of its arguments' sources plus the call itself"""
+    from cond import Sources
+    S = Sources()
+    for a in t["args"]:
+        Sa = sources(body, a, transparent=_TP_MATCH, follow_phi=False)
+        for c, lst in Sa.calls.items():
+            S.calls.setdefault(c, []).extend(lst)
+        S.loads |= Sa.loads
+        S.args |= Sa.args
+        S.binops |= Sa.binops
+        S.consts.extend(Sa.consts)
+    cp = callee_path(t)
+    if cp:
+        S.calls.setdefault(cp, [])
+    return S
+
+
 def r_cursor_state(F, V):
     """Sibling agreement of the two group walkers (next_impl, fold_impl): both consume the bit
     iterator stored in self.current_group, every freshly loaded group is stored into it, and
@@ -818,6 +1213,15 @@ def r_cursor_state(F, V):
             continue
         n += 1
         problems = []
+        lm = _walker_local_mode(body)
+        if lm is not None:
+            key = "%s|cursor" % p
+            if lm:
+                R.violation(key, body, "; ".join(sorted(set(lm))))
+                R.inst(key, "; ".join(sorted(set(lm))), "violation", True, where(body))
+            else:
+                R.inst(key, "walks with local copies of the cursor: starts from self.current_group; every reload becomes the iterated mask; data and ctrl advance with each reload by the same step", "ok", True, where(body))
+            continue
         bit_next = [(i, t) for i, t in body.calls() if (callee_path(t) or "").endswith("<BitMaskIter as Iterator>::next")]
         if not bit_next:
             problems.append("no BitMaskIter::next call: the walker does not iterate a stored bit mask")
@@ -901,10 +1305,23 @@ def r_rehash_loop(F, V):
         R.undec("rehash_in_place: swap (%d) / hasher (%d) / outer next (%d) sites not all found" % (len(swaps), len(hashers), len(nexts)))
         return R
     bad = False
+    # a branch on a control byte (the tag that was replaced, or the slot's current byte re-read) taken after the swap, one arm of
+    # which leads back to the hasher without advancing the outer loop, is the "was it a swap?" decision in another spelling:
+    # which arm is taken is a question about run-time values, the structure that is decided here is that such a way back exists
+    tag_tests = []
+    for i in body.normal:
+        if body.term(i)["k"] != "switch" or len(body.nsucc[i]) < 2:
+            continue
+        S_ = branch_sources(body, i)
+        if not (S_.has_call("RawTableInner::ctrl") or S_.has_call("replace_ctrl_hash")):
+            continue
+        back = [x for x in body.nsucc[i] if any(h in body.reachable_from(x, tuple(nexts)) for h in hashers)]
+        if back and len(back) < len(body.nsucc[i]):
+            tag_tests.append(i)
     for s in swaps:
-        reach = set()
-        for x in body.nsucc[s]:
-            reach |= body.reachable_from(x, tuple(hashers))
+        # (flag-sensitive: `while !settled { .. }` keeps looping after a swap because the swap arm leaves the flag unset)
+        after_swap_tests = tuple(t_ for t_ in tag_tests if t_ in body.reachable_from_flags(s, tuple(hashers)) and not body.dominates(t_, s))
+        reach = body.reachable_from_flags(s, tuple(hashers) + after_swap_tests)
         if any(nx in reach for nx in nexts) or any(r in reach for r in body.returns):
             bad = True
     if bad:
